@@ -413,6 +413,10 @@ func (ex *Exec) specCall(st *State, e *ast.CallExpr) []*Val {
 			// done(ctx): ghost done-ness of a context now
 			x := ex.expr(st, e.Args[0])
 			return one(&Val{T: tBool, Term: ex.ctxDone(st, x.Term)})
+		case "sprintf":
+			f := ex.materialize(ex.expr(st, e.Args[0]), tString)
+			a := ex.expr(st, e.Args[1])
+			return one(&Val{T: tString, Term: ex.sprintfModel(st, f.Term, a.Term)})
 		case "unboxStr":
 			x := ex.expr(st, e.Args[0])
 			return one(&Val{T: tString, Term: ex.D.app("unbox$"+smtName(SStr), SStr, x.Term)})
